@@ -330,6 +330,9 @@ class Compiler(object):
             self.pre_process_extensibility_implied_type(type_descriptor)
 
     def pre_process_extensibility_implied_type(self, type_descriptor):
+        if self.is_instantiated_from_other_module(type_descriptor):
+            return
+
         # Actual parameters are part of the type once the
         # parameterized type has been instantiated.
         for parameter in self.get_actual_parameter_types(type_descriptor):
@@ -379,6 +382,9 @@ class Compiler(object):
                               type_descriptor,
                               module_tags,
                               module_name):
+        if self.is_instantiated_from_other_module(type_descriptor):
+            return
+
         type_name = type_descriptor['type']
 
         if 'tag' in type_descriptor:
@@ -413,6 +419,19 @@ class Compiler(object):
             self.pre_process_tags_type(parameter,
                                        module_tags,
                                        module_name)
+
+    def is_instantiated_from_other_module(self, type_descriptor):
+        """Returns True if given type is an instance of a parameterized
+        type defined in another module. Its parts were pre-processed
+        before the instantiation, by the rules (tagging and
+        extensibility defaults) of the modules they are written in,
+        and must not be pre-processed again by the rules of the
+        module using the type when the specification is compiled
+        another time.
+
+        """
+
+        return 'module-name' in type_descriptor
 
     def get_actual_parameter_types(self, type_descriptor):
         """Returns the actual parameters of given type that are types. They
